@@ -27,6 +27,7 @@ RULE = ('(a) concatenation law: 2-5 independently generated files that differ '
         'files. non-trivial = the stacked dimension is used by at least one '
         'variable and there are >= 2 pieces; distinct = digest of the spec.')
 RULE += (" One case in sixteen splits and restacks the object one of the library's READERS returns for a valid image written by the independent codecs (CAMx memory-mapped and record readers, bpch1, bpch2, arlpackedbit, ffi1001) along a dimension drawn from the open file (TSTEP for IOAPI-class files).")
+RULE += (' Pieces saved to disk and opened one by one are also handed to stack_files and to the stack method as open files.')
 ASSUMPTIONS = [
     'dimension dict order is not demanded (not named by the property)',
     'variables without the stacked dimension are compared with the first '
